@@ -41,6 +41,24 @@ func Logger() log.Logger {
 }
 
 var dirCtr atomic.Int64
+var janitor sync.Once
+
+// sweepDead removes the scratch directories of processes that no longer exist (killed runs cannot clean up).
+func sweepDead(base string) {
+	es, err := os.ReadDir(base)
+	if err != nil {
+		return
+	}
+	for _, e := range es {
+		var pid int
+		if _, err := fmt.Sscanf(e.Name(), "verif-%d", &pid); err != nil || pid <= 0 {
+			continue
+		}
+		if _, err := os.Stat(fmt.Sprintf("/proc/%d", pid)); os.IsNotExist(err) {
+			_ = os.RemoveAll(base + "/" + e.Name())
+		}
+	}
+}
 
 // ScratchDir returns a fresh directory on /dev/shm and its removal function.
 func ScratchDir() (string, func()) {
@@ -48,6 +66,7 @@ func ScratchDir() (string, func()) {
 	if _, err := os.Stat(base); err != nil {
 		base = os.TempDir()
 	}
+	janitor.Do(func() { sweepDead(base) })
 	d := fmt.Sprintf("%s/verif-%d/%d", base, os.Getpid(), dirCtr.Add(1))
 	if err := os.MkdirAll(d+"/db", 0o755); err != nil {
 		panic(err)
